@@ -7,9 +7,9 @@ export CARGO_NET_OFFLINE=true
 mkdir -p target evidence scratch replay
 # CLI (veryl + veryl-ls), repo's own optimised no-LTO profile
 ( cd /repo && RUSTFLAGS="--cfg veryl_verif" cargo build --offline --profile release-verylup \
-    -p veryl -p veryl-ls --target-dir /verif/target/cli ) > target/setup_cli.log 2>&1 &
+    -p veryl -p veryl-ls --target-dir /verif/target/cli -j $(nproc) ) > target/setup_cli.log 2>&1 &
 CLI_PID=$!
 # harness (path deps on /repo/crates/*, Cargo.lock copied from /repo)
-( cd harness && cargo build --offline --release --workspace ) > target/setup_harness.log 2>&1 || { tail -50 target/setup_harness.log; exit 1; }
+( cd harness && cargo build --offline --release --workspace -j $(nproc) ) > target/setup_harness.log 2>&1 || { tail -50 target/setup_harness.log; exit 1; }
 wait $CLI_PID || { tail -50 target/setup_cli.log; exit 1; }
 echo "setup done"
